@@ -60,6 +60,8 @@ class Interp(Engine):
                 return ClsV(base, obj)
             if self.repo.has_const(base, obj):
                 return Conc(self.repo.const(base, obj))
+        if self.module and self.repo.has_const(self.module, name):
+            return Conc(self.repo.const(self.module, name))     # imported constant of a module we do not parse
         return Fun("ext", name=full)
 
     # ================================================================= expressions
